@@ -253,14 +253,10 @@ def stereo_mol_graph_to_rdmol(
             #rd_atom.SetHybridization(Chem.HybridizationType.SP3D)
             rd_atom.SetChiralTag(Chem.ChiralType.CHI_TRIGONALBIPYRAMIDAL)
             if a_stereo.parity is not None:
+                rd_nbr_order = tuple([idx_map_num_dict[nbr.GetIdx()]
+                                      for nbr in rd_atom.GetNeighbors()])
 
-                atoms_order = (a_stereo._inverted_atoms()
-                               if a_stereo.parity == -1 else a_stereo.atoms)
-                rd_id_order = tuple([map_num_idx_dict[a]
-                                     for a in atoms_order[1::]])
-                rd_nbr_order = tuple([nbr.GetIdx() for nbr in rd_atom.GetNeighbors()])
-                
-                        # adapted from http://opensmiles.org/opensmiles.html
+                # adapted from http://opensmiles.org/opensmiles.html
                 atom_order_permutation_dict = {
                 (0, 1, 2, 3, 4): 1,
                 (0, 1, 3, 2, 4): 2,
@@ -285,11 +281,13 @@ def stereo_mol_graph_to_rdmol(
                 }
 
                 for perm, val in atom_order_permutation_dict.items():
-
+                    # the descriptor the import creates for this label
                     rd_nbr_perm = tuple([rd_nbr_order[i] for i in perm])
-                    rd_nbr_perm = tuple([rd_nbr_perm[i] for i in (0, 4, 1, 2, 3)])
-
-                    if rd_id_order == rd_nbr_perm:
+                    rd_nbr_perm = tuple([rd_nbr_perm[i]
+                                         for i in (0, 4, 1, 2, 3)])
+                    if a_stereo == TrigonalBipyramidal(
+                        (a_stereo.atoms[0], *rd_nbr_perm), -1
+                    ):
                         rd_atom.SetUnsignedProp("_chiralPermutation", val)
                         break
 
